@@ -1016,9 +1016,10 @@ def strategy_domain(A, events):
     # loop-carried values in the conditions: a fold counter (constant start, incremented by exactly one on every path of an
     # iteration) has the value start + n at the top of fold n; any other loop-carried value is not evaluable
     counters = {}
+    flags = {}
     for t in pcs:
         for x in subterms(t):
-            if isinstance(x, T) and x.op == "carried" and x not in counters:
+            if isinstance(x, T) and x.op == "carried" and x not in counters and x not in flags:
                 init = x.a[1]
                 ok = x.a[2] == A.loop.id and is_const(init) and isinstance(cval(init), int) and not isinstance(cval(init), bool) \
                     and not A.loop.breaks and bool(A.loop.ends)
@@ -1028,13 +1029,24 @@ def strategy_domain(A, events):
                             and ((endv.a[1] == x and endv.a[2] == C(1)) or (endv.a[2] == x and endv.a[1] == C(1)))):
                         ok = False
                 if not ok:
-                    raise Undef(x)
+                    # a flag: constant before the loop, and at the end of every iteration rebound to one loop-invariant term
+                    # (parameters and constants only): its value is the constant at fold 0 and that term's value afterwards
+                    ends_ = {st_.env.get(x.a[0]) for st_ in A.loop.ends} if (x.a[2] == A.loop.id and is_const(init)
+                                                                             and not A.loop.breaks and A.loop.ends) else set()
+                    e_ = next(iter(ends_)) if len(ends_) == 1 else None
+                    if e_ is None or any(isinstance(y, T) and y.op not in ("const", "param", "cmp", "boolop", "unop", "tuple", "list", "set")
+                                         for y in subterms(e_)):
+                        raise Undef(x)
+                    flags[x] = (cval(init), e_)
+                    continue
                 counters[x] = cval(init)
     for n in sorted(ns):
         for s in ("refit", "update"):
             val = {P("strategy"): s}
             for x, c0 in counters.items():
                 val[x] = c0 + n
+            for x, (c0, e_) in flags.items():
+                val[x] = c0 if n == 0 else ceval(e_, val)
             for e in enums:
                 if not (is_const(e.a[1]) and isinstance(cval(e.a[1]), int)):
                     raise Undef(e)
